@@ -524,6 +524,9 @@ cdef class Genotype:
 			del self.thisptr
 		self.thisptr = new cpp.Genotype(alleles)
 
+	def __reduce__(self):
+		return (Genotype, ([],), self.__getstate__())
+
 	def __deepcopy__(self, memo):
 		return Genotype.__new__(Genotype, self.as_vector())
 
